@@ -23,7 +23,7 @@ ASSUMPTIONS = [
     'iter_dna costs ~1 ms per DNA: finite spaces are bounded to <=400 members',
     'bool indices are not used as corruptions: True == 1 in Python, so DNA(True) equals the member DNA(1)',
 ]
-BUDGET = {'quick': 320, 'thorough': 16000}
+BUDGET = {'quick': 200, 'thorough': 16000}
 EXHAUSTIVE_DOMAINS = {
     'shapes2': 'all shapes with <=2 decision points, k<=3, <=3 candidates, sub-space at first or last candidate, reference size<=24 (thorough: <=80)',
     'shapes3': 'thorough only: every 9th shape with <=3 decision points and reference size<=80',
